@@ -47,6 +47,40 @@ func vDeclareGuards(a *Association, s *Stream) {
 	vGuardedBy(&a.inFastRecovery, &a.lock, "Association.inFastRecovery")
 	vGuardedBy(&a.partialBytesAcked, &a.lock, "Association.partialBytesAcked")
 	vGuardedBy(&a.ssthresh, &a.lock, "Association.ssthresh")
+	vGuardedBy(&a.rackHead, &a.lock, "Association.rackHead")
+	vGuardedBy(&a.rackTail, &a.lock, "Association.rackTail")
+	vGuardedBy(&a.tlrActive, &a.lock, "Association.tlrActive")
+	vGuardedBy(&a.peerVerificationTag, &a.lock, "Association.peerVerificationTag")
+	vGuardedBy(&a.minTSN2MeasureRTT, &a.lock, "Association.minTSN2MeasureRTT")
+	vGuardedBy(&a.willRetransmitReconfig, &a.lock, "Association.willRetransmitReconfig")
+	vGuardedBy(&a.willSendShutdownAck, &a.lock, "Association.willSendShutdownAck")
+	vGuardedBy(&a.willSendShutdownComplete, &a.lock, "Association.willSendShutdownComplete")
+	vGuardedBy(&a.shutdownCompletePending, &a.lock, "Association.shutdownCompletePending")
+	vGuardedBy(&a.willSendAbortCause, &a.lock, "Association.willSendAbortCause")
+	vGuardedBy(&a.myCookie, &a.lock, "Association.myCookie")
+	vGuardedBy(&a.useForwardTSN, &a.lock, "Association.useForwardTSN")
+	vGuardedBy(&a.useIForwardTSN, &a.lock, "Association.useIForwardTSN")
+	vGuardedBy(&a.peerInterleaving, &a.lock, "Association.peerInterleaving")
+	vGuardedBy(&a.peerForwardTSN, &a.lock, "Association.peerForwardTSN")
+	vGuardedBy(&a.peerIForwardTSN, &a.lock, "Association.peerIForwardTSN")
+	vGuardedBy(&a.sendZeroChecksum, &a.lock, "Association.sendZeroChecksum")
+	vGuardedBy(&a.recvZeroChecksum, &a.lock, "Association.recvZeroChecksum")
+	vGuardedBy(&a.fastRecoverExitPoint, &a.lock, "Association.fastRecoverExitPoint")
+	vGuardedBy(&a.rackReoWnd, &a.lock, "Association.rackReoWnd")
+	vGuardedBy(&a.rackMinRTT, &a.lock, "Association.rackMinRTT")
+	vGuardedBy(&a.rackDeliveredTime, &a.lock, "Association.rackDeliveredTime")
+	vGuardedBy(&a.rackHighestDeliveredOrigTSN, &a.lock, "Association.rackHighestDeliveredOrigTSN")
+	vGuardedBy(&a.rackReorderingSeen, &a.lock, "Association.rackReorderingSeen")
+	vGuardedBy(&a.storedInit, &a.lock, "Association.storedInit")
+	vGuardedBy(&a.storedCookieEcho, &a.lock, "Association.storedCookieEcho")
+	vGuardedBy(&a.delayedAckTriggered, &a.lock, "Association.delayedAckTriggered")
+	vGuardedBy(&a.immediateAckTriggered, &a.lock, "Association.immediateAckTriggered")
+	vGuardedBy(&a.tlrFirstRTT, &a.lock, "Association.tlrFirstRTT")
+	vGuardedBy(&a.tlrHadAdditionalLoss, &a.lock, "Association.tlrHadAdditionalLoss")
+	vGuardedBy(&a.tlrEndTSN, &a.lock, "Association.tlrEndTSN")
+	vGuardedBy(&a.tlrGoodOps, &a.lock, "Association.tlrGoodOps")
+	vGuardedBy(&a.tlrStartTime, &a.lock, "Association.tlrStartTime")
+	vGuardedBy(&a.silentError, &a.lock, "Association.silentError")
 }
 
 func vAPIWalk(guards bool) {
@@ -290,11 +324,29 @@ func vh_C20_L6_timer_loop_fires_callbacks_unlocked() {
 	a.cwnd, a.rwnd = 1<<20, 1<<20
 	_ = vWriterPass(a)
 	vassert(a.inflightQueue.size() == 1 && !a.ptoDeadline.IsZero(), "data in flight, tail-loss probe armed")
-	<-time.After(2 * time.Second) // nothing arrives: the probe deadline passes while this goroutine waits
+	rack := vPick(2) == 1
+	if rack {
+		// the RACK reordering deadline instead: its callback walks and edits the list of
+		// outstanding original transmissions, which belongs to the association lock
+		a.stopPTOTimer()
+		a.rackDeliveredTime = time.Now() // something was delivered before
+		a.startRackTimer(time.Millisecond)
+		vGuardedBy(&a.rackHead, &a.lock, "Association.rackHead")
+		vGuardedBy(&a.rackTail, &a.lock, "Association.rackTail")
+		vGuardedBy(&a.tlrActive, &a.lock, "Association.tlrActive")
+	}
+	<-time.After(2 * time.Second) // nothing arrives: the deadline passes while this goroutine waits
+	a.timerMu.Lock()
+	rackLeft := !a.rackDeadline.IsZero()
+	a.timerMu.Unlock()
 	a.lock.RLock()
 	fired := a.tlrActive
 	a.lock.RUnlock()
-	vassert(fired, "the timer loop fired the tail-loss probe")
+	if rack {
+		vassert(!rackLeft, "the timer loop fired the reordering deadline")
+	} else {
+		vassert(fired, "the timer loop fired the tail-loss probe")
+	}
 	vassert(vLocksFree(a, s), "and left every lock free")
 	a.closeWriteLoopOnce.Do(func() { close(a.closeWriteLoopCh) })
 	vcover("end")
